@@ -62,7 +62,11 @@ def cut_source(text, names, fname="?"):
                         break
                 j += 1
             if kind == "def":
+                # prototype of the original name (so that callers in this file still see a declaration)
+                sig = "\n".join(lines[i:j])
+                sig = sig[:sig.rindex("{")].rstrip() + ";"
                 lines[i] = re.sub(r"\b" + re.escape(name) + r"(\s*\()", name + r"__real\1", ln, count=1)
+                lines[i] = sig.replace("\n", " ") + " " + lines[i]
                 done.add(name)
                 break
     missing = [n for n in names if n not in done]
@@ -163,8 +167,9 @@ def cbmc_cmd(ob, gb, backend, extra=()):
            "--no-standard-checks", "--bounds-check", "--pointer-check", "--div-by-zero-check",
            "--unwinding-assertions", "--no-malloc-may-fail", "--drop-unused-functions",
            "--object-bits", str(ob.get("object_bits", 10))]
-    if ob.get("unwindset"):
-        cmd += ["--unwindset", ",".join(ob["unwindset"])]
+    uw = list(ob.get("unwindset", [])) + list(ob.get("_unwind_fn_expanded", []))
+    if uw:
+        cmd += ["--unwindset", ",".join(uw)]
     if ob.get("unwind") is not None:
         cmd += ["--unwind", str(ob["unwind"])]
     cmd += list(ob.get("cbmc", []))
@@ -193,7 +198,7 @@ def parse_cbmc(out):
 
 def run_cbmc_portfolio(ob, gb, extra=(), want_results=True):
     """run the obligation's back ends in parallel; first definitive answer wins"""
-    backends = ob.get("backends", ["sat"])
+    backends = ob.get("backends", ["cadical"])
     timeout = ob.get("timeout", 600)
     mem = ob.get("mem_gb", 12)
     winner = {}
@@ -249,22 +254,41 @@ def run_cbmc_portfolio(ob, gb, extra=(), want_results=True):
     return None, rs
 
 
+def expand_unwind_fn(gb, table):
+    """{function: bound} -> ['function.N:bound', ...] for every loop of that function (ids from cbmc --show-loops)"""
+    r = sh(["cbmc", gb, "--show-loops"], timeout=120)
+    out = []
+    for m in re.finditer(r"^Loop (\S+?)\.(\d+):", r["out"], re.M):
+        fn = m.group(1)
+        if fn in table:
+            out.append("%s.%s:%d" % (fn, m.group(2), table[fn]))
+    return out
+
+
 WITNESS_PREFIX = "WITNESS:"
 
 
 def classify(results):
-    viol, wit_ok, wit_bad, nprops = [], [], [], 0
+    viol, wit_ok, wit_bad, nprops, unknown = [], [], [], 0, []
     for r in results:
         desc = r.get("description", "")
         nprops += 1
         if desc.startswith(WITNESS_PREFIX):
             (wit_ok if r["status"] == "FAILURE" else wit_bad).append(desc)
-        elif r["status"] != "SUCCESS":
+        elif r["status"] == "FAILURE":
             viol.append(r)
+        elif r["status"] != "SUCCESS":
+            unknown.append(r)      # UNKNOWN: not decided because an earlier fatal property failed
+    if unknown and not viol:
+        viol = unknown             # undecided without a cause: surfaces as a non-reproducing failure = broken check
     return viol, wit_ok, wit_bad, nprops
 
 
 def extract_inputs(trace):
+    """inputs are file-scope variables named in_*: the first assignment in a trace is the static
+    zero-initialisation, the second one is the LOAD() from a nondeterministic value; later
+    assignments (the code under test writing through an alias) are not inputs."""
+    seen = {}
     vals = {}
     for s in trace:
         if s.get("stepType") != "assignment":
@@ -277,13 +301,16 @@ def extract_inputs(trace):
         b = v.get("binary")
         if b is None:
             continue
+        key = (m.group(1), int(m.group(2)) if m.group(2) is not None else -1)
+        seen[key] = seen.get(key, 0) + 1
+        if seen[key] > 2:
+            continue
         n = len(b) // 8
         if n == 0:
-            # _Bool etc: width<8
             n = 1
             b = b.rjust(8, "0")
         iv = int(b, 2)
-        vals[(m.group(1), int(m.group(2)) if m.group(2) is not None else -1)] = (iv.to_bytes(n, "little"), v.get("data"))
+        vals[key] = (iv.to_bytes(n, "little"), v.get("data"))
     return vals
 
 
@@ -366,7 +393,7 @@ def nobody_callees(msgs):
 def run_obligation(run, ob):
     """returns a record dict; never raises (errors become status 'broken')"""
     rec = dict(name=ob["name"], status="?", wall=0.0, props=0, witnesses=0, violations=[], notes=[],
-               functions=ob.get("functions", []), bounds=ob.get("bounds", ""), backends=ob.get("backends", ["sat"]),
+               functions=ob.get("functions", []), bounds=ob.get("bounds", ""), backends=ob.get("backends", ["cadical"]),
                stubs=ob.get("stubs", []), cuts=ob.get("cuts", {}), assumes=ob.get("assumes", []),
                units=sorted(set(ob.get("include", []) + ob.get("units", []))))
     t0 = time.time()
@@ -374,6 +401,9 @@ def run_obligation(run, ob):
     os.makedirs(odir, exist_ok=True)
     try:
         gb = build_goto(run, ob, odir)
+        if ob.get("unwind_fn"):
+            ob = dict(ob)
+            ob["_unwind_fn_expanded"] = expand_unwind_fn(gb, ob["unwind_fn"])
         win, allr = run_cbmc_portfolio(ob, gb)
         rec["solver_s"] = sum(r["wall"] for r in allr)
         if not win:
